@@ -89,7 +89,7 @@ CHECKS["C04"] = {
                        "expression.py:Expression.evaluate"],
     "required_cells": ["align:True", "align:False", "alignclass:1", "alignclass:2", "alignclass:4", "alignclass:8",
                        "alignclass:16", "mixed-modes:aligned-offset", "mixed-modes:unaligned-offset", "empty-structures", "explicit-forward-offsets",
-                       "sizeof-of-names:alias", "sizeof-of-names:other", "custom-type-alignment"],
+                       "sizeof-of-names:alias", "sizeof-of-names:other", "sizeof-of-names:also-a-member", "custom-type-alignment"],
     "assumptions": ASSUME_COMMON,
 }
 
@@ -150,7 +150,7 @@ CHECKS["C08"] = {
     "required_reach": ["types/packed.py:Packed._read_array", "types/int.py:Int._read", "types/char.py:Char._read_array",
                        "types/wchar.py:Wchar._read_array", "types/leb128.py:LEB128._read",
                        "types/structure.py:UnionMetaType._read", "<compiled>"],
-    "required_cells": ["align:True", "align:False", "compiled:True", "compiled:False", "dynamic-union", "feat:union",
+    "required_cells": ["structure-ends-in-a-counted-array", "align:True", "align:False", "compiled:True", "compiled:False", "dynamic-union", "feat:union",
                        "feat:bits", "direct-types",
                        "eof-elements:struct", "eof-elements:int24", "eof-elements:uleb128", "single-char-member-at-offset"],
     "assumptions": ASSUME_COMMON + ["faults are injected at read() calls of file-like streams; bytes inputs are "
@@ -195,7 +195,7 @@ CHECKS["C05"] = {
                        "types/leb128.py:LEB128._read", "types/leb128.py:LEB128._write",
                        "types/wchar.py:Wchar._read_array", "types/wchar.py:Wchar._write",
                        "types/char.py:Char._read_array", "<compiled>"],
-    "required_cells": ["int:int24:>", "int:uint128:<", "int:int64:!", "float:float16:>", "wchar:!", "leb:ileb128",
+    "required_cells": ["long-arrays", "int:int24:>", "int:uint128:<", "int:int64:!", "float:float16:>", "wchar:!", "leb:ileb128",
                        "leb:uleb128", "switch:compiled", "switch:interpreted"],
     "assumptions": ASSUME_COMMON + ["the native byte orders '@' and '=' are outside the claimed domain"],
 }
@@ -239,7 +239,7 @@ CHECKS["C12"] = {
                        "parser.py:TokenParser._enum", "parser.py:CStyleParser._enums", "types/enum.py:Enum.__eq__",
                        "types/flag.py:Flag.__eq__", "types/enum.py:Enum.__hash__", "types/flag.py:Flag.__hash__"],
     "required_cells": ["pinned-witnesses", "enum:compiled", "enum:interpreted", "flag:compiled", "flag:interpreted", "legacy-parser",
-                       "anonymous-enum", "anonymous-constants:flag", "anonymous-constants:enum", "enum-over-enum", "members-named-name-or-value", "enum:int8", "flag:uint8", "enum:uint24", "flag:int16"],
+                       "anonymous-enum", "anonymous-constants:flag", "anonymous-constants:enum", "enum-over-enum", "members-named-name-or-value", "dumps-across-endian-switches", "enum:int8", "flag:uint8", "enum:uint24", "flag:int16"],
     "assumptions": ASSUME_COMMON,
 }
 
@@ -423,7 +423,8 @@ CHECKS["C14"] = {
     "required_reach": ["types/structure.py:_generate_structure__init__", "types/structure.py:StructureMetaType.__call__",
                        "types/base.py:BaseArray.__default__", "types/base.py:MetaType.__default__",
                        "cstruct.py:cstruct.add_type", "types/packed.py:_struct"],
-    "required_cells": ["op:default", "op:keyword", "op:mutate", "op:parse", "op:failparse", "op:endian", "op:load",
+    "required_cells": ["failed-length-evaluations", "alias-used-before-its-target-is-re-bound",
+                       "op:default", "op:keyword", "op:mutate", "op:parse", "op:failparse", "op:endian", "op:load",
                        "op:add_type", "two-cstructs-same-names", "load-histories", "load-histories:align",
                        "load-histories:compiled",
                        "deepcopy:union", "deepcopy:plain", "custom-type-on-several-cstructs", "failed-load-then-corrected-load", "same-text-other-constants"],
